@@ -115,7 +115,9 @@ theorem accepted_iff_nesting_le_value (env : PEnv) (d D : Nat) (hle : d ≤ D) (
 `limit_error_kind_*`: at each of the model's `with_increased_nesting` sites an exhausted
 budget yields `NestingLimitExceeded`, with the span the Rust code passes. (The *reported*
 kind of a rejected filter may differ: inside a function argument the "blind parsing"
-fallback of `FunctionCallArgExpr::lex_with` swallows the error and reports its own.) -/
+fallback of `FunctionCallArgExpr::lex_with` swallows the error and reports its own.)
+The unary-operator site is the one guarded by `LogicalExpr::lex_unary_op` (`lexUnary`): a
+registered name that merely begins with `not` does not descend and costs no nesting level. -/
 
 theorem limit_error_kind_paren (env : PEnv) (input rest : Input)
     (h : expect input "(" = some rest) :
@@ -123,12 +125,12 @@ theorem limit_error_kind_paren (env : PEnv) (input rest : Input)
   exhausted_paren h
 
 theorem limit_error_kind_not (env : PEnv) (input rest : Input) (u : Unit)
-    (h0 : expect input "(" = none) (h : lexEnum unaryOps input = some (u, rest)) :
+    (h0 : expect input "(" = none) (h : lexUnary env input = some (u, rest)) :
     (level env 0).simple input = errAt .nestingLimitExceeded input :=
   exhausted_not h0 h
 
 theorem limit_error_kind_quantifier (env : PEnv) (input rest : Input) (op : QOp)
-    (h0 : expect input "(" = none) (h1 : lexEnum unaryOps input = none)
+    (h0 : expect input "(" = none) (h1 : lexUnary env input = none)
     (h : lexQuantCall input = some (op, rest)) :
     (level env 0).simple input = errAt .nestingLimitExceeded (skipSpace rest) :=
   exhausted_quant h0 h1 h
